@@ -179,7 +179,13 @@ func (cw *chunkedWriter) Close() error {
 }
 
 func parseHexUint(v []byte) (n uint64, err error) {
-	for _, b := range v {
+	if len(v) == 0 {
+		return 0, errors.New("empty hex number for chunk length")
+	}
+	for i, b := range v {
+		if i == 16 {
+			return 0, errors.New("http chunk length too large")
+		}
 		n <<= 4
 		switch {
 		case '0' <= b && b <= '9':
